@@ -32,6 +32,7 @@ props! {
     #[cfg(feature = "full")] c08 => "C08",
     #[cfg(feature = "full")] c15 => "C15",
     #[cfg(feature = "full")] c16 => "C16",
+    #[cfg(feature = "full")] c19 => "C19",
     #[cfg(feature = "full")] c20 => "C20",
 }
 
